@@ -1,6 +1,7 @@
 import DdoModel.Engines.Small
 import DdoModel.Engines.Fringe
 import DdoModel.Engines.Mdd
+import DdoModel.Engines.Seq
 /-! Line-protocol driver.  stdin: pairs of lines
       `C <engine> <id> <case tokens…>`
       `I <id> <implementation output tokens…>`
@@ -15,6 +16,8 @@ def dispatch (engine : String) (c i : List String) : Option Res :=
   | "dom" => domEngine c i
   | "fringe" => fringeEngine c i
   | "mdd" => mddEngine c i
+  | "seq" => seqEngine c i
+  | "seqcut" => seqcutEngine c i
   | _ => none
 
 partial def loop (h : IO.FS.Stream) (out : IO.FS.Stream) : IO Unit := do
